@@ -33,6 +33,11 @@ const (
 	// every one of its runs; its replay needs luck (and gets more tries).
 	intermittent     = " (intermittent under this plan)"
 	replayTriesFlaky = 60
+	// plans whose consumer naps in real time for a second or more are
+	// repeated less often (a run takes seconds; what they show does not
+	// depend on luck but on the clock)
+	minimiseRunsSlow = 2
+	confirmRunsSlow  = 2
 )
 
 var dirSeq atomic.Int64
@@ -55,7 +60,7 @@ func (Engine) Run(t *testing.T, job *simkit.Job, rng *simkit.RNG, idx int64, c *
 			items = append(items, it)
 		}
 	} else {
-		items = generate(rng)
+		cfg, items = generate(rng, idx)
 	}
 	cb, _ := json.Marshal(cfg)
 	cs := &simkit.Case{Config: cb}
@@ -67,7 +72,7 @@ func (Engine) Run(t *testing.T, job *simkit.Job, rng *simkit.RNG, idx int64, c *
 	}
 	o := &simkit.Outcome{Case: cs, Hash: simkit.Hash64(parts...),
 		Faults: map[string]int64{}, Probes: map[string]int64{}}
-	pl, why := newPlan(items)
+	pl, why := newPlan(cfg, items)
 	if pl == nil {
 		if c == nil {
 			o.HarnessErr = "generator produced an invalid plan: " + why
@@ -94,7 +99,14 @@ func (Engine) Run(t *testing.T, job *simkit.Job, rng *simkit.RNG, idx int64, c *
 			}
 		default: // a candidate of the minimiser
 			runs, needAll, capD = minimiseRuns, true, stuckCapShort
+			if pl.napMS >= longNapMS {
+				runs = minimiseRunsSlow
+			}
 		}
+	}
+	confirm := confirmRuns
+	if pl.napMS >= longNapMS {
+		confirm = confirmRunsSlow
 	}
 	var (
 		common map[string]bool
@@ -120,6 +132,7 @@ func (Engine) Run(t *testing.T, job *simkit.Job, rng *simkit.RNG, idx int64, c *
 		if ob.res != nil && ob.res.Forced > 0 {
 			o.Probes["puppet_gate_given_up"]++ // a soft-capped child gate ran out (slow, never wrong)
 		}
+		countObserved(pl, ob, o)
 		lastV, lastTr, lastStuck = vs, facts, ob.stuck != ""
 		if needAll {
 			cur := map[string]bool{}
@@ -158,7 +171,7 @@ func (Engine) Run(t *testing.T, job *simkit.Job, rng *simkit.RNG, idx int64, c *
 		// recur every time is reported under its own signature, so that a
 		// lucky hit does not take the place of a plan that fails every time.
 		recur := map[string]int{}
-		for i := 0; i < confirmRuns; i++ {
+		for i := 0; i < confirm; i++ {
 			ob, err := runOnce(job, pl, capD)
 			o.Steps++
 			simkit.Heartbeat.Add(1)
@@ -180,7 +193,7 @@ func (Engine) Run(t *testing.T, job *simkit.Job, rng *simkit.RNG, idx int64, c *
 			}
 		}
 		for i := range lastV {
-			if recur[lastV[i].Invariant+"|"+lastV[i].Signature] < confirmRuns {
+			if recur[lastV[i].Invariant+"|"+lastV[i].Signature] < confirm {
 				lastV[i].Signature += intermittent
 			}
 		}
@@ -212,6 +225,45 @@ func runOnce(job *simkit.Job, pl *plan, capD time.Duration) (*observed, string) 
 	defer os.RemoveAll(dir)
 	ob := runPlan(pl, dir, capD)
 	return ob, ob.harnessErr
+}
+
+// countObserved counts what a run of the GoSimple family showed of the state
+// its plan aims at (these depend on the schedule; they are evidence, nothing
+// is judged by them).
+func countObserved(pl *plan, ob *observed, o *simkit.Outcome) {
+	if ob.wblockHits > 0 {
+		o.Probes["consumer_read_on_child_blocked"]++
+	}
+	if !ob.gs {
+		return
+	}
+	switch ob.proto {
+	case 2:
+		o.Probes["gosimple_http2"]++
+	case 1:
+		o.Probes["gosimple_http1"]++
+	}
+	if ob.extraReqs > 0 {
+		o.Probes["gosimple_extra_requests"]++
+	}
+	if ob.pokes > 0 && pl.napMS == 0 {
+		// the stream had not ended a quarter of a second after the planned
+		// input was out although the consumer was not napping
+		o.Probes["gosimple_extra_input_sent"]++
+	}
+	if ob.napBehind > 0 {
+		// the consumer stood still in real time with output outstanding
+		o.Faults["consumer_behind_during_nap"]++
+		// ... and more of it than the C2 side can have taken off the wire:
+		// the rest was still on the shell's side of the connection
+		win := pl.cfg.Win
+		if win == 0 {
+			win = 1 << 20
+		}
+		if ob.napBehind > int64(win)+4096 {
+			o.Faults["backlog_beyond_c2_window_during_nap"]++
+		}
+	}
 }
 
 // countPlan fills Faults and Probes.  Everything here follows from the plan
@@ -289,6 +341,25 @@ func countPlan(pl *plan, o *simkit.Outcome) {
 	if pl.drain == 1 {
 		o.Probes["one_byte_reader"]++
 	}
+	if pl.hasReadx {
+		o.Probes["consumer_paced_until_exit"]++
+	}
+	if pl.cfg.Fam == famGoSimple {
+		o.Probes["gosimple_runs"]++
+		if pl.napReaped {
+			// real time: the consumer does nothing for 1.5-2.5 s after it
+			// has seen the child exited
+			o.Faults["gosimple_real_nap_after_exit"]++
+		}
+		if pl.cfg.Win != 0 {
+			o.Probes["gosimple_small_c2_window"]++
+		}
+		if pl.cfg.FPre {
+			o.Probes["gosimple_fp_prefixed"]++
+		}
+	} else if pl.napMS > 0 {
+		o.Probes["direct_real_nap"]++
+	}
 }
 
 // judge is the oracle.  It looks only at facts that do not depend on the
@@ -334,8 +405,8 @@ func judge(pl *plan, ob *observed) (vs []simkit.Found, facts []string, harnessEr
 			fact("%s: wrong bytes", names[fd])
 		case ob.n[fd] < want:
 			add("output-complete-before-eof", names[fd]+" truncated",
-				fmt.Sprintf("the output stream ended after %d of the %d bytes the command wrote to %s (planned consumer gates: %v)",
-					ob.n[fd], want, names[fd], gateList(pl)))
+				fmt.Sprintf("the output stream ended after %d of the %d bytes the command wrote to %s (planned consumer gates: %v)%s",
+					ob.n[fd], want, names[fd], gateList(pl), famNote(pl)))
 			fact("%s: truncated", names[fd])
 		default:
 			fact("%s: complete", names[fd])
@@ -358,6 +429,11 @@ func judge(pl *plan, ob *observed) (vs []simkit.Found, facts []string, harnessEr
 		add("exit-status-reported", "nonzero exit reported as success",
 			fmt.Sprintf("the command exited with status %d but Go returned nil", res.Code))
 		fact("go: nil although exit status nonzero")
+	case res.Code == 0 && ob.goErr != nil && len(vs) > 0:
+		// Output was lost or damaged on the way (reported above): the I/O
+		// did not complete successfully, and an error is then what Go owes
+		// its caller, not a spurious one.
+		fact("go: error, exit status 0, output not intact")
 	case res.Code == 0 && ob.goErr != nil:
 		add("spurious-error", "error returned although the command exited 0",
 			fmt.Sprintf("the command exited with status 0 and the consumer read the stream to its end, but Go returned: %v", ob.goErr))
@@ -387,6 +463,18 @@ func judge(pl *plan, ob *observed) (vs []simkit.Found, facts []string, harnessEr
 		}
 	}
 	return vs, facts, ""
+}
+
+// famNote says, for a run of the GoSimple family, where the stream was read.
+func famNote(pl *plan) string {
+	if pl.cfg.Fam != famGoSimple {
+		return ""
+	}
+	nap := ""
+	if pl.napMS > 0 {
+		nap = fmt.Sprintf("; the consumer stood still for %d ms of real time", pl.napMS)
+	}
+	return " [run through simpleshell.GoSimple: the stream is the request body as the worker's C2 side read it" + nap + "]"
 }
 
 func gateList(pl *plan) []string {
